@@ -313,6 +313,9 @@ def kept_by_reference(ctx, rep, R):
                         kept.append(x.args[0])
             for obj in kept:
                 n += 1
+                # a local that stands for the parent link (`parent = self.parent`) is the parent link
+                from ..pyutil import inlined
+                obj = inlined(obj, fn.body)
                 rep.ob(R, site, "kept by reference: %s" % norm(obj), norm(obj) == "%s.parent" % selfp,
                        "`%s` is put into the deepcopy memo, so every copy of a %s shares it with the original: what flatten (or an edit) does to "
                        "the copy's %s happens to the caller's tree too — only the parent link may be kept by reference" % (norm(obj), cls, norm(obj).split(".")[-1]))
